@@ -464,6 +464,9 @@ func solveAll(obls []*Obligation, cfg *runConfig) []*OblResult {
 				if light == "" { light0 := o.smtTextS(nil, true); os.WriteFile("/tmp/govc-dump-"+sanitize(o.Name)+".lightq.smt2", []byte(light0), 0o644) }
 				os.WriteFile("/tmp/govc-dump-"+sanitize(o.Name)+".light.smt2", []byte(light), 0o644)
 			}
+			if o.LightWeak {
+				noGraceFor.Store(o.Name, true)
+			}
 			r := solve2(text, light, to, false, cfg.allSolve && !o.Cover, o.Name)
 			res[i] = &OblResult{O: o, R: r, SMT: len(text)}
 		}()
